@@ -439,9 +439,9 @@ func init() {
 			}
 			alpha = append(alpha, Op{Kind: "clone"}, Op{Kind: "resolve", A: "?x=1&y"}, Op{Kind: "resolve", A: "#f"}, Op{Kind: "resolve", A: "z"})
 			starts := []string{"http://h/p?a=1&b=2#f", "http://h/p", "foo://h/p?", "mailto:x y  ?q=1#f", "data: text  ", "file:///C:/d?a=b&a=c", "foo:/p?a%26b=%3D&c+d=e+f"}
-			depth := 3
+			depth := 4
 			if c.Thorough() {
-				depth = 4
+				depth = 5
 			}
 			ex := &Explore{Label: "mixed-histories", Starts: starts, Alphabet: alpha, Depth: depth, MLCap: 3, Check: c12Check, Kind: "c12-hist"}
 			ex.run2(c, 3)
